@@ -25,6 +25,41 @@ type sweepFinding struct {
 	Pos  string
 }
 
+// perRequestReceivers: receiver types whose objects are created per request (decoded parameters, scratch state); a method may
+// update them.  Every other pointer receiver in the library is a long-lived registered object (bias, listener, function object,
+// preference function) shared by all requests.
+var perRequestReceivers = map[string]bool{
+	"IdealCoefficientSatisfactionLevels": true, "ThresholdSatisfactionLevels": true, "additionalCriterionAnchoringState": true,
+	"AlternativesRanking": true, "AlternativeResults": true, "criteriaWeights": true, "WeightedCriteria": true, "Criteria": true,
+	"DecisionMaker": true, "Weights": true, "byValue": true,
+}
+
+func rootReceiver(v ssa.Value, fn *ssa.Function, depth int) bool {
+	if depth > 8 || fn.Signature.Recv() == nil || len(fn.Params) == 0 {
+		return false
+	}
+	switch v := v.(type) {
+	case *ssa.Parameter:
+		return v == fn.Params[0]
+	case *ssa.FieldAddr:
+		return rootReceiver(v.X, fn, depth+1)
+	case *ssa.IndexAddr:
+		return rootReceiver(v.X, fn, depth+1)
+	case *ssa.UnOp:
+		// *t0 where t0 is the spill slot of the receiver (naive form)
+		if a, ok := v.X.(*ssa.Alloc); ok && v.Op.String() == "*" {
+			for _, r := range *a.Referrers() {
+				if st, ok := r.(*ssa.Store); ok && st.Addr == a {
+					if p, ok := st.Val.(*ssa.Parameter); ok && p == fn.Params[0] {
+						return true
+					}
+				}
+			}
+		}
+	}
+	return false
+}
+
 func rootGlobal(v ssa.Value, depth int) *ssa.Global {
 	if depth > 8 {
 		return nil
@@ -93,6 +128,14 @@ func (w *World) sweep() (scanned int, findings []sweepFinding) {
 				case *ssa.Store:
 					if g := rootGlobal(ins.Addr, 0); g != nil && !isInit {
 						findings = append(findings, sweepFinding{shortFuncName(fn), "global_write", "stores to package-level variable " + g.Name(), pos})
+					}
+					if fa, isField := ins.Addr.(*ssa.FieldAddr); isField && rootReceiver(fa.X, fn, 0) {
+						rt := fn.Signature.Recv().Type()
+						if pt, ok := types.Unalias(rt).(*types.Pointer); ok {
+							if n, ok := types.Unalias(pt.Elem()).(*types.Named); ok && !perRequestReceivers[n.Obj().Name()] {
+								findings = append(findings, sweepFinding{shortFuncName(fn), "shared_object_write", "stores to a field of its long-lived receiver " + n.Obj().Name(), pos})
+							}
+						}
 					}
 				case *ssa.MapUpdate:
 					if u, ok := ins.Map.(*ssa.UnOp); ok {
